@@ -29,6 +29,7 @@ class Prop:
     level = "proof"
     claimed = True
     impl_env = None
+    gen_scope = []       # GenEq/<name>: functions re-translated from /repo on every run whose equality with the model this property needs
     pre_make = None      # optional hook run before the Coq build (regenerates Gen/ files from /repo)
     level_text = ""
     level_note = ("Trusted: Coq 8.16.1 kernel; Sem/ (hand-written semantics of Rust integers in both overflow profiles, slices, panics, "
@@ -173,6 +174,20 @@ def main(P, tier, replay=None):
         except build.BuildError as e:
             proof_ok = False
             ctx["open_obligations"].append({"kind": "proof", "what": e.what, "log": e.log[-3000:]})
+        # tie T1: re-translate the modelled functions from /repo and re-check "translated = model" for the ones in scope
+        tie1 = {}
+        if P.gen_scope:
+            try:
+                report = build.gen_models()
+                status = {d: (st, det) for rep in report.values() for (f, st, det) in rep for d in [f]}
+                tie1 = build.gen_eq(P.gen_scope)
+                for n, err in tie1.items():
+                    if err is not None:
+                        ctx["open_obligations"].append({"kind": "translation", "what": "GenEq/%s.v: the definition regenerated from /repo's source is no longer shown equal to the model definition the theorems are about" % n, "log": err})
+                ctx["gen_report"] = {f: [list(x) for x in rep if x[1] != "translated"] for f, rep in report.items()}
+            except build.BuildError as e:
+                ctx["open_obligations"].append({"kind": "translation", "what": e.what, "log": e.log[-3000:]})
+        ctx["tie1"] = tie1
         try:
             build.coq_make(targets=["Run/Main.vo"])
             drv = build.ml_driver()
@@ -187,7 +202,7 @@ def main(P, tier, replay=None):
     ctx["exes"], ctx["drv"] = exes, drv
 
     # ---- audit ----
-    aud = audit.run_audit(P, assumptions, thorough=(tier == "thorough")) if proof_ok else {"ok": False, "problems": ["proof closure did not build"]}
+    aud = audit.run_audit(P, assumptions, thorough=(tier == "thorough"), tie1=ctx.get("tie1")) if proof_ok else {"ok": False, "problems": ["proof closure did not build"]}
     if proof_ok and not aud["ok"]:
         ctx["open_obligations"].append({"kind": "audit", "what": "; ".join(aud["problems"])})
 
@@ -280,7 +295,9 @@ def main(P, tier, replay=None):
             "trusted_base": TRUSTED_BASE + P.extra_assumptions,
             "print_assumptions": assumptions,
             "audit": aud,
-            "tie": "T2 correspondence (hand-written model in translator style vs compiled crate), both cargo profiles",
+            "tie": "T2 correspondence (model vs compiled crate, both cargo profiles)" + ("; T1: %d function(s) re-translated from /repo by rs2v+translate.py and re-proved equal to the model (GenEq/*.v), %d broken" % (len(ctx.get("tie1", {})), sum(1 for v in ctx.get("tie1", {}).values() if v is not None)) if P.gen_scope else ""),
+            "tie_T1": {n: ("equal" if v is None else "BROKEN") for n, v in ctx.get("tie1", {}).items()},
+            "tie_T1_untranslated": ctx.get("gen_report", {}),
             "evaluations": len(cases) * 2,
             "distinct_nontrivial": len(distinct),
             "rule": P.nontrivial_rule,
